@@ -196,6 +196,8 @@ func (e *Env) Exec(line string) string {
 	switch w[0] {
 	case "reset":
 		return "ok" // handled by the caller (fresh Env)
+	case "world":
+		return "ok" // a note to the monitors about how the external chains behave in this history
 	case "init":
 		e.Init()
 		return "ok"
